@@ -123,6 +123,7 @@ StepRules(st, cache) ==
   \cup (IF (entered # {} /\ pre.status \notin Cleanup) => (cl = Cardinality(entered) /\ up = cl) THEN {} ELSE {"C09.exactlyOnce"})
   \cup (IF (entered # {}) => st.post.status \in Terminal THEN {} ELSE {"C09.settles"})
   \cup (IF (st.post.status \in Terminal /\ ~term /\ pre.status \notin Cleanup) => cl >= 1 THEN {} ELSE {"C09.neverWithout"})
+  \cup (IF \A i \in Pairs : p[i].status \in Cleanup => p[i+1].status \in Cleanup \cup {TerminalOf(p[i].status)} THEN {} ELSE {"C09.staysInCleanup"})
   \cup (IF \A j \in 1..Len(st.env) : st.env[j].call = "unprotect" => st.env[j].peer = (IF st.ident.self = st.ident.initiator THEN st.ident.responder ELSE st.ident.initiator)
         THEN {} ELSE {"C09.unprotectPeer"})
   (* ---- C07 ---- *)
